@@ -279,13 +279,24 @@ func driveC09(args []string) error {
 	}
 	black := color.RGBA{0, 0, 0, 255}
 	gens := map[string]func(i int) color.RGBA{
-		"enc1":    func(i int) color.RGBA { return []color.RGBA{{0x40, 0x80, 0xc0, 0xff}, {0xff, 0, 0x40, 0xff}, {0, 0, 0, 0}, {0x80, 0x80, 0x80, 0x80}, {0xc0, 0xc0, 0xc0, 0xc0}}[i%5] },
-		"trans1":  func(i int) color.RGBA { return []color.RGBA{{0x40, 0x40, 0x40, 0x40}, {0, 0x40, 0, 0x80}, {0x40, 0, 0x80, 0xc0}, {0, 0, 0, 0x40}}[i%4] },
-		"enc2":    func(i int) color.RGBA { return color.RGBA{uint8(i%16) * 0x11 / 2 / 0x11 * 0x11, 0x11, 0, uint8(8+i%8) * 0x11} },
-		"enc3":    func(i int) color.RGBA { return color.RGBA{uint8(i*3 + 1), uint8(i + 7), uint8(200 - i), 0xff} },
-		"enc4":    func(i int) color.RGBA { return color.RGBA{uint8(i), uint8(i / 2), 1, uint8(i + 3)} },
-		"mixed":   func(i int) color.RGBA { a := uint8(rng.Intn(256)); return color.RGBA{uint8(rng.Intn(int(a) + 1)), uint8(rng.Intn(int(a) + 1)), uint8(rng.Intn(int(a) + 1)), a} },
-		"mixed12": func(i int) color.RGBA { return []color.RGBA{{0x40, 0x80, 0xc0, 0xff}, {0x33, 0x88, 0, 0xff}, {0x30, 0x66, 0x07, 0xff}, {0x10, 0x20, 0x30, 0x80}}[rng.Intn(4)] },
+		"enc1": func(i int) color.RGBA {
+			return []color.RGBA{{0x40, 0x80, 0xc0, 0xff}, {0xff, 0, 0x40, 0xff}, {0, 0, 0, 0}, {0x80, 0x80, 0x80, 0x80}, {0xc0, 0xc0, 0xc0, 0xc0}}[i%5]
+		},
+		"trans1": func(i int) color.RGBA {
+			return []color.RGBA{{0x40, 0x40, 0x40, 0x40}, {0, 0x40, 0, 0x80}, {0x40, 0, 0x80, 0xc0}, {0, 0, 0, 0x40}}[i%4]
+		},
+		"enc2": func(i int) color.RGBA {
+			return color.RGBA{uint8(i%16) * 0x11 / 2 / 0x11 * 0x11, 0x11, 0, uint8(8+i%8) * 0x11}
+		},
+		"enc3": func(i int) color.RGBA { return color.RGBA{uint8(i*3 + 1), uint8(i + 7), uint8(200 - i), 0xff} },
+		"enc4": func(i int) color.RGBA { return color.RGBA{uint8(i), uint8(i / 2), 1, uint8(i + 3)} },
+		"mixed": func(i int) color.RGBA {
+			a := uint8(rng.Intn(256))
+			return color.RGBA{uint8(rng.Intn(int(a) + 1)), uint8(rng.Intn(int(a) + 1)), uint8(rng.Intn(int(a) + 1)), a}
+		},
+		"mixed12": func(i int) color.RGBA {
+			return []color.RGBA{{0x40, 0x80, 0xc0, 0xff}, {0x33, 0x88, 0, 0xff}, {0x30, 0x66, 0x07, 0xff}, {0x10, 0x20, 0x30, 0x80}}[rng.Intn(4)]
+		},
 	}
 	names := []string{"enc1", "trans1", "enc2", "enc3", "enc4", "mixed", "mixed12"}
 	for _, name := range names {
